@@ -1,6 +1,13 @@
 import ParryModel.Field
 import ParryModel.C11.Lemmas
 import ParryModel.C11.Theorems2
+import ParryModel.C11.Theorems3
+import ParryModel.C11.Theorems4
+import ParryModel.C11.Theorems5
+import ParryModel.C11.Theorems6
+import ParryModel.C11.Theorems7
+import ParryModel.C11.Theorems8
+import ParryModel.C11.Theorems9
 /-!
 # C11 property theorems: TriMesh derived data always match the buffers
 
@@ -651,5 +658,41 @@ theorem planarBox_mirror_law :
   obtain ⟨⟨a1, a2⟩, ⟨b1, b2⟩, ⟨c1, c2⟩⟩ := c
   simp only [planarBox, mapTri, mirrorX, Prod.mk.injEq]
   refine ⟨⟨?_, trivial⟩, ⟨?_, trivial⟩⟩ <;> omega
+
+/-! ## the 3-D statement for the real formulas, without geometric hypotheses (fu4) -/
+section RealGeometry
+variable {K : Type} [Field K] [LinearOrder K] [IsStrictOrderedRing K] (sq : K → K)
+
+/-- **C11 for the concrete 3-D geometry**: vertices and pseudo-normals in `V3 K` over any ordered field, `Triangle::normal()`
+and `Matrix::angle` as written (`geoK acos`, any `acos`, any square-root function): after `with_flags` and any finite
+sequence of `set_flags`, `reverse`, `append` and `transform_vertices` by isometries with a unit quaternion, the derived data
+are those of the current buffers and flags.  The hypotheses `LawfulGeo` / `TransformLaws` of `history_coherent` are
+discharged by `geoK_lawful` and `geoK_isometry_laws`. -/
+theorem history_coherent_real (acos : K → K) (vs : List (V3 K)) (idx : List Tri) (f : Flags)
+    (ops : List (Op (V3 K) (V3 K))) :
+    letI := fieldNum K sq
+    letI := geoK acos
+    (∀ op ∈ ops, match op with
+      | Op.transform fV fN => ∃ m : Iso3 K,
+          m.qi * m.qi + m.qj * m.qj + m.qk * m.qk + m.qw * m.qw = 1 ∧ fV = m.act ∧ fN = m.rot
+      | _ => True) →
+    ∀ s0 s : Mesh (V3 K) (V3 K), withFlags true vs idx f = .ok s0 → run true s0 ops = some s → Coherent true s := by
+  letI := fieldNum K sq
+  letI := geoK acos
+  intro hops s0 s h0 h
+  refine history_coherent true (fun _ => geoK_lawful sq acos) vs idx f ops ?_ s0 s h0 h
+  intro op hop
+  have := hops op hop
+  cases op with
+  | transform fV fN =>
+    obtain ⟨m, hq, rfl, rfl⟩ := this
+    exact geoK_isometry_laws sq acos m hq
+  | _ => trivial
+
+/-- 2-D meshes never carry pseudo-normals: whatever the flags, the derived pseudo-normals are absent -/
+theorem derive_dim2_no_pn {V N : Type} [Geo V N] (vs : List V) (idx : List Tri) (f : Flags) :
+    (derive (N := N) false vs idx f).pn = none := rfl
+
+end RealGeometry
 
 end C11
